@@ -353,6 +353,8 @@ impl<M: Manager, W: From<Object<M>>> Pool<M, W> {
                 })?;
                 if self.inner.settle_debt() {
                     permit.forget();
+                    #[cfg(deadpool_verif)]
+                    crate::verif::point("get.reacquire");
                 } else {
                     break permit;
                 }
@@ -372,6 +374,8 @@ impl<M: Manager, W: From<Object<M>>> Pool<M, W> {
                             .map_err(|_| PoolError::Closed)?;
                         if self.inner.settle_debt() {
                             permit.forget();
+                            #[cfg(deadpool_verif)]
+                            crate::verif::point("get.reacquire");
                         } else {
                             break Ok::<_, PoolError<M::Error>>(permit);
                         }
@@ -651,6 +655,7 @@ impl<M: Manager, W: From<Object<M>>> Pool<M, W> {
             size: slots.size,
             max_size: slots.max_size,
             idle_len: slots.vec.len(),
+            debt: slots.debt,
             users: self.inner.users.load(Ordering::Relaxed),
         }
     }
@@ -728,6 +733,8 @@ impl<M: Manager> PoolInner<M> {
         } else {
             slots.size -= 1;
             drop(slots);
+            #[cfg(deadpool_verif)]
+            crate::verif::point("return.surplus_permit");
             self.semaphore.add_permits(1);
             #[cfg(deadpool_verif)]
             crate::verif::point("return.detach");
@@ -737,6 +744,8 @@ impl<M: Manager> PoolInner<M> {
     /// Pays off one permit of the debt left behind by a shrink of the pool.
     /// Returns `false` if there is no debt.
     fn settle_debt(&self) -> bool {
+        #[cfg(deadpool_verif)]
+        crate::verif::point("get.settle");
         let mut slots = self.slots.lock().unwrap();
         if slots.debt > 0 {
             slots.debt -= 1;
